@@ -158,6 +158,22 @@ CLAIMS["C13"] = dict(
     design_ref="DESIGN.md §3 C13",
 )
 
+CLAIMS["C12"] = dict(
+    technique="path-condition dominance on symbolically evaluated parsers (validation before slicing); enumeration of each FromStr decision tree; pack/unpack inverse law; data agreement of generated tables with their source",
+    category="other",
+    text=("For all strings: on every path of the 8 hex helpers the whole argument has passed validate_hex_digits (= bytes().all(is_ascii_hexdigit)) "
+          "before any byte-range slice or from_str_radix, so multi-byte characters cannot panic and no sign reaches the integer parser; the "
+          "decision tree of each of the 10 FromStr impls is enumerated from the evaluated body: the accepted (digit count -> bit depth) table "
+          "equals the documented one, the parsed string has at most one '#' stripped (using len(strip_prefix('#')) = len-1 to discard "
+          "infeasible paths), and every other length is an error; helper slices tile the string in equal widths in r,g,b(,a) order with 4-bit "
+          "digits ×17. LowerHex/UpperHex write red,green,blue (Alpha: colour, alpha) padded to 2·size_of::<T>(). For all colours: "
+          "unpack∘pack is the identity for each of the 6 ComponentOrder impls and pack's order spells the type name; integer forms pair "
+          "from_be_bytes/to_be_bytes; From<u32> uses ARGB for Rgb and RGBA for Rgba both ways. All 148 lines of svg_colors.txt have their "
+          "constant and map entry (lower-case, unique, no others). Not decided: the phf displacement tables (that lookup of a listed name "
+          "lands on its entry) in the quick tier."),
+    design_ref="DESIGN.md §3 C12",
+)
+
 NOT_YET = "check under construction (see DESIGN.md §7 build order); will be claimed when its rule is armed"
 NA = {}
 
